@@ -315,7 +315,7 @@ def new_ghe():
     coords = [(i * 6.0, j * 6.0) for i in range(3) for j in range(3)]
     from vf import loadgen
 
-    return ghe_factory.make_ghe(coords, pipe="single", H=100.0, loads=[x * 2.0 for x in loadgen.atlanta_like(0.6)], months=12, hvals=[60.0, 97.5, 135.0])
+    return ghe_factory.make_ghe(coords, pipe="single", H=100.0, loads=[x * 1.7 for x in loadgen.atlanta_like(0.6)], months=12, hvals=[60.0, 97.5, 135.0])  # sized inside the window (about 110 m)
 
 
 def new_ghe_one_curve():
